@@ -74,6 +74,7 @@ T_C16_CanSound == [][C16_CanSound]_tv
 T_C17_AdminWriters == [][C17_AdminWriters]_tv
 T_C17_AdminExact == [][C17_AdminExact]_tv
 T_C17_FrozenForever == [][C17_FrozenForever]_tv
+T_UpgradeKeepsState == [][UpgradeKeepsState]_tv
 T_C17_MigrateKeeps == [][C17_MigrateKeeps]_tv
 T_C17_GrantsByAdmins == [][C17_GrantsByAdmins]_tv
 T_C17_Init == [][C17_Init]_tv
